@@ -15,6 +15,7 @@ import Binson.Spec.Cursor
 import Binson.Model.Api
 import Binson.Model.Counted
 import Binson.Model.Writer
+import Binson.Model.WriterX
 import Binson.Model.Print
 import Binson.Model.Transcribe
 import Binson.Model.Cpp
@@ -275,14 +276,10 @@ def execModel (w : World) (toks : List String) (hint : String) : World × String
   | ["wx"] => withW fun x => let r := x.reset; (setW w k r.1, wobs r.1 r.2)
   -- a NULL argument (binson_write_name(w, NULL), binson_write_raw(w, NULL, n)): ERROR_NULL, false, nothing stored or counted.
   -- Outside `WOp` (the theorems assume valid arguments); modelled here so that the latch and reset oracles see such histories.
-  | ["wnN"] => withW fun x => let x' := { x with err := .null }; (setW w k x', wobs x' false)
-  -- binson_write_raw(w, p, SIZE_MAX): c = (used + SIZE_MAX) mod 2^64 is either > capacity or < used: RANGE (NULL for a NULL destination),
-  -- nothing stored, the counter wraps with it. Outside `WOp` (the theorems assume lengths that describe real objects, total < 2^63).
-  | ["wrH"] => withW fun x =>
-      let c := (x.used + (two64 - 1)) % two64
-      let x' := { x with err := (if x.bufNull then Err.null else Err.range), used := c }
-      (setW w k x', wobs x' false)
-  | ["wrN", _] => withW fun x => let x' := { x with err := .null }; (setW w k x', wobs x' false)
+  | ["wnN"] => withW fun x => let r := x.stepX .nullName; (setW w k r.1, wobs r.1 r.2)
+  | ["wrN", n] => withW fun x => let r := x.stepX (.nullRaw n.toNat!); (setW w k r.1, wobs r.1 r.2)
+  -- binson_write_raw(w, p, SIZE_MAX): `WOpX.hugeRaw` (Model/WriterX.lean; refused by the capacity test, c04_huge_length_refused)
+  | ["wrH"] => withW fun x => let r := x.stepX .hugeRaw; (setW w k r.1, wobs r.1 r.2)
   | ["wob"] => wOp .objBegin
   | ["woe"] => wOp .objEnd
   | ["wab"] => wOp .arrBegin
